@@ -199,6 +199,32 @@ def run_history(seq):
                     bad({"class": "latest_after_write", "reader": kind, "reader_age": "old" if born != "fresh" else "fresh"},
                         "step %d (%s): %s reader born %s latest %s, highest index %d" % (step, op, kind, born, res["latest"], hi), step=step)
         rfw.close()
+        # ---- a later writer session on the same metadata channel (same parameters; then with another file-name
+        #      prefix): whatever session is accepted, a write that returns is visible to earlier and new readers
+        if written:
+            for sess, prefix in (("same_parameters", "metadata"), ("other_file_name", "meta2")):
+                try:
+                    mdw2 = drf.DigitalMetadataWriter(mdir, MD_SC, MD_FC, N, D, prefix)
+                except Exception:  # noqa: BLE001
+                    if sess == "same_parameters":
+                        bad({"class": "resumed_metadata_session_refused"}, "a second writer session with identical parameters was refused")
+                    part["outcomes"]["session %s refused" % sess] += 1
+                    continue
+                part["outcomes"]["session %s accepted" % sess] += 1
+                k = max(written) + 1 + (7 if sess == "other_file_name" else 0)
+                mdw2.write(k, {"v": int(k % 100000), "txt": "t%d" % k})
+                written[k] = int(k % 100000)
+                part["transitions"] += 1
+                for kind, obj, born in list(readers) + [("md", drf.DigitalMetadataReader(mdir), "fresh"), ("rf", drf.DigitalRFReader(top), "fresh")]:
+                    res = query_pass(kind, obj, len(seq), "%s born %s after a %s session" % (kind, born, sess))
+                    if res is None:
+                        continue
+                    if kind == "md" and res["bounds"] != (min(written), max(written)):
+                        bad({"class": "bounds_after_write", "session": sess}, "after a write by a later session (%s): md reader born %s get_bounds %r, written %s" % (
+                            sess, born, res["bounds"], sorted(written)))
+                    if res["range"] != sorted(written) or res["latest"] != [max(written)]:
+                        bad({"class": "range_after_write", "reader": kind, "session": sess}, "after a write by a later session (%s): %s reader born %s range %s latest %s, written %s" % (
+                            sess, kind, born, res["range"], res["latest"], sorted(written)))
         part["traces"] += 1
         part["nontrivial"].add(core.canon(seq))
         part["states"].add(core.canon((sorted(written), [r[0] for r in readers])))
